@@ -49,37 +49,38 @@ const (
 
 // Result is what one API call did, as observed from outside.
 type Result struct {
-	OpID     int       `json:"op"`
-	Task     int       `json:"task"`
-	Kind     string    `json:"kind"`
-	Target   string    `json:"target,omitempty"` // name of the template executed / looked up
-	Inv      uint64    `json:"inv"`
-	Ret      uint64    `json:"ret"`
-	Skipped  string    `json:"skipped,omitempty"`
-	Out      []byte    `json:"-"`
-	OutS     string    `json:"out,omitempty"`
-	NWrites  int       `json:"nwrites,omitempty"`
-	WLens    []int     `json:"-"`
-	FailedAt int       `json:"write_failed_at,omitempty"` // index (1-based) of the Write that was failed by a fault
-	AfterErr int       `json:"writes_after_error,omitempty"`
-	Err      string    `json:"err,omitempty"`
-	ErrClass string    `json:"errclass,omitempty"` // analysis exec writer other
-	ErrCode  int       `json:"errcode,omitempty"`
-	Panic    string    `json:"panic,omitempty"`
-	Stack    string    `json:"stack,omitempty"`
-	Aborted  string    `json:"aborted,omitempty"`
-	Probes   []string  `json:"probes,omitempty"`
-	HTML     string    `json:"html,omitempty"`
-	Names    []string  `json:"names,omitempty"`
-	Found    bool      `json:"found,omitempty"`
-	Fired    []string  `json:"fired,omitempty"`
-	Done     bool      `json:"done"`
-	Created  int       `json:"created,omitempty"`  // 1 + id of the set this call created (0: none)
-	How      string    `json:"how,omitempty"`      // new | function-form | clone
-	Handle   string    `json:"handle,omitempty"`   // name of the new set's root handle
-	Exists   bool      `json:"exists,omitempty"`   // execution calls: the target is a member of the set
-	Complete bool      `json:"complete,omitempty"` // Clone: every member of the parent is a member of the clone
-	Subs     []*Result `json:"subs,omitempty"`
+	OpID     int        `json:"op"`
+	Task     int        `json:"task"`
+	Kind     string     `json:"kind"`
+	Target   string     `json:"target,omitempty"` // name of the template executed / looked up
+	Inv      uint64     `json:"inv"`
+	Ret      uint64     `json:"ret"`
+	Skipped  string     `json:"skipped,omitempty"`
+	Out      []byte     `json:"-"`
+	OutS     string     `json:"out,omitempty"`
+	NWrites  int        `json:"nwrites,omitempty"`
+	WLens    []int      `json:"-"`
+	FailedAt int        `json:"write_failed_at,omitempty"` // index (1-based) of the Write that was failed by a fault
+	AfterErr int        `json:"writes_after_error,omitempty"`
+	Err      string     `json:"err,omitempty"`
+	ErrClass string     `json:"errclass,omitempty"` // analysis exec writer other
+	ErrCode  int        `json:"errcode,omitempty"`
+	Panic    string     `json:"panic,omitempty"`
+	Stack    string     `json:"stack,omitempty"`
+	Aborted  string     `json:"aborted,omitempty"`
+	Probes   []string   `json:"probes,omitempty"`
+	HTML     string     `json:"html,omitempty"`
+	Names    []string   `json:"names,omitempty"`
+	Found    bool       `json:"found,omitempty"`
+	Fired    []string   `json:"fired,omitempty"`
+	Done     bool       `json:"done"`
+	Created  int        `json:"created,omitempty"`  // 1 + id of the set this call created (0: none)
+	How      string     `json:"how,omitempty"`      // new | function-form | clone
+	Handle   string     `json:"handle,omitempty"`   // name of the new set's root handle
+	Exists   bool       `json:"exists,omitempty"`   // execution calls: the target is a member of the set
+	Complete bool       `json:"complete,omitempty"` // Clone: every member of the parent is a member of the clone
+	Reads    []*readRec `json:"-"`                  // Parse*: what the simulated disk delivered, per file
+	Subs     []*Result  `json:"subs,omitempty"`
 }
 
 type slot struct {
@@ -393,11 +394,19 @@ func buildVal(v *Val) interface{} {
 
 type simFS struct{}
 
+// readRec is what one file read delivered to the library.
+type readRec struct {
+	Name string
+	Data []byte
+	Err  bool
+}
+
 type simFile struct {
 	name string
 	data []byte
 	off  int
 	sl   *slot
+	rec  *readRec
 	eof  int // truncated length (-1 = none)
 	eio  int // fail with EIO once off reaches this (-1 = none)
 }
@@ -431,6 +440,9 @@ func (f *simFile) Read(p []byte) (int, error) {
 	if ft := f.sl.fault(seamFSRead); ft != nil {
 		switch ft.Kind {
 		case "eio":
+			if f.rec != nil {
+				f.rec.Err = true
+			}
 			return 0, &fs.PathError{Op: "read", Path: f.name, Err: syscall.EIO}
 		case "eio_after":
 			f.eio = ft.Off
@@ -447,6 +459,9 @@ func (f *simFile) Read(p []byte) (int, error) {
 		data = data[:f.eof]
 	}
 	if f.eio >= 0 && f.off >= f.eio {
+		if f.rec != nil {
+			f.rec.Err = true
+		}
 		return 0, &fs.PathError{Op: "read", Path: f.name, Err: syscall.EIO}
 	}
 	if f.off >= len(data) {
@@ -458,6 +473,9 @@ func (f *simFile) Read(p []byte) (int, error) {
 	}
 	n := copy(p, data[f.off:lim])
 	f.off += n
+	if f.rec != nil {
+		f.rec.Data = append(f.rec.Data, p[:n]...)
+	}
 	return n, nil
 }
 
@@ -518,7 +536,12 @@ func (simFS) Open(name string) (fs.File, error) {
 	}
 	disk := diskOf(sl)
 	if data, ok := disk[name]; ok {
-		return &simFile{name: name, data: []byte(data), sl: sl, eof: -1, eio: -1}, nil
+		f := &simFile{name: name, data: []byte(data), sl: sl, eof: -1, eio: -1}
+		if sl.res != nil {
+			f.rec = &readRec{Name: name}
+			sl.res.Reads = append(sl.res.Reads, f.rec)
+		}
+		return f, nil
 	}
 	// directory?
 	prefix := name + "/"
@@ -568,6 +591,9 @@ func simReadFile(name string) ([]byte, error) {
 	}
 	if ft != nil && ft.Kind == "trunc" && ft.Off < len(data) {
 		data = data[:ft.Off]
+	}
+	if sl.res != nil {
+		sl.res.Reads = append(sl.res.Reads, &readRec{Name: name, Data: []byte(data)})
 	}
 	return []byte(data), nil
 }
